@@ -106,6 +106,14 @@ var specs = map[string]*propSpec{
 	"C09": prefixSpec("Non-trivial (C09) = history in which a client that already holds a prefix sent another IA_PD (renewal, hint-less repeat or retransmission); distinct by (pool, clients, seed)",
 		guard{"prefix.repeat_or_renewal_from_holder", 2000, "renewals/repeats by holders"}, guard{"prefix.hint.own", 500, "exact renewals"}, guard{"prefix.hint.none", 1000, "hint-less IA_PDs"},
 		guard{"prefix.hint.length-0", 200, "length-0 hints"}, guard{"prefix.audits", 300, "conservation audits"}, guard{"prefix.retransmissions", 500, "retransmissions"}),
+	"C10": {
+		level: "exploration",
+		rule: "three kinds of case, each in a fresh server process through LoadPlugins: (static) a generated lease file of 1-40 lines - every MAC spelling (colon/hyphen/dot, 6/8/20 bytes, case) and address spelling (dotted, v4-mapped, compressed/expanded/upper-case IPv6), tabs/multiple blanks, comments, blank lines, duplicates, and in a third of the files one malformation (field count, MAC, address, wrong family) at a random position - accepted iff the reference parser accepts it, and then every listed MAC (and 3 unlisted) is asked for: listed -> last address listed (yiaddr + chain ends; exactly one IA_NA with the request's IAID), unlisted / no IA_NA -> reply identical to the reply without the plugin; (refresh) autorefresh with 1-9 good/bad single-pwrite equal-length rewrites of self-identifying versions: each poll sequence must be old-or-new and monotone, a good version must be served for all MACs within 400 polls / 20 s (re-armed once), a bad one must leave the old version served; (dual) DHCPv4 and DHCPv6 instances in one process with their own files and independent rewrites. Non-trivial = static file with >= 2 entries or malformed, every refresh sequence, every dual case; distinct by content",
+		assumptions: assume("replacement of the file by rename (new inode) is outside 'rewrites' and not driven", "whitespace-only lines, indented comments and CR line endings are not classified by the statement and are not generated", "'eventually' is restated as bounded progress: 400 polls over >= 20 s with one re-arm"),
+		runs:        []runSpec{{engine: "file", parallel: 12, qBatches: 24, qCases: 12, tBatches: 96, tCases: 30, stall: 6 * time.Minute}},
+		guards: []guard{{"file.static.malformed", 30, "malformed files"}, {"file.static.served", 500, "served listed clients"}, {"file.static.unlisted_untouched", 200, "unlisted clients"},
+			{"file.refresh.good_rewrites", 30, "good rewrites"}, {"file.refresh.bad_rewrites_held", 10, "bad rewrites"}, {"file.dual.requests", 30, "dual-stack requests"}},
+	},
 	"C14": {
 		level: "exploration",
 		rule: "each case is one accepted server_id spelling (DHCPv6: LL/LLT in every keyword spelling x MAC of 6/8/20 bytes in colon/hyphen/dot form; DHCPv4: dotted and v4-mapped address) hosted in a fresh server process; DHCPv6: all 256 message types x {no, matching, other kind, same kind other MAC, longer, shorter, opaque, enterprise, LLT with other time} Server Identifier x relay depth 0-2 decided by the RFC 8415 section 16 table; DHCPv4: siaddr {absent, zero, own, other} x option 54 {absent, zero, own, other} x {DISCOVER, REQUEST} x with/without parameter list; every answered message must carry exactly this server's identifier (option 54 and siaddr for DHCPv4). Distinct by (configuration, matrix cell)",
